@@ -13,7 +13,7 @@ import (
 
 func init() {
 	props["C11"] = c11
-	floors["C11"] = map[string]int{"C11.R1": 9, "C11.R2": 5, "C11.R3": 6, "C11.R4": 2, "C11.R5": 1}
+	floors["C11"] = map[string]int{"C11.R1": 9, "C11.R2": 6, "C11.R3": 6, "C11.R4": 2, "C11.R5": 1}
 }
 
 // switchCases maps the constant values a function switches on (comparisons of
@@ -253,6 +253,41 @@ func c11(r *Report) {
 				okFlag = false
 			}
 		}
+		// a message flagged compressed went through the codec switch
+		var flagOne []ssa.Instruction
+		for _, c := range plainCalls(em, "(*bytes.Buffer).WriteByte") {
+			if n, isC := constInt(c.Call.Args[1]); isC && n == 1 {
+				flagOne = append(flagOne, c)
+			}
+			if phi, isPhi := c.Call.Args[1].(*ssa.Phi); isPhi {
+				for i, e := range phi.Edges {
+					if n, isC := constInt(e); isC && n == 1 {
+						pb := phi.Block().Preds[i]
+						flagOne = append(flagOne, pb.Instrs[len(pb.Instrs)-1])
+					}
+				}
+			}
+		}
+		// (compared as sets of controlling conditions, so that two separate tests of the same,
+		// unmodified field are recognised as the same condition)
+		okCodec := len(flagOne) > 0
+		var encBlock *ssa.BasicBlock
+		for _, inn := range instrs(em) {
+			if v, ok := inn.(ssa.Value); ok && isEncodingLoad(v) {
+				encBlock = inn.Block()
+			}
+		}
+		if encBlock == nil {
+			okCodec = false
+		} else {
+			want := strings.Join(ctrlConds(encBlock), " & ")
+			for _, fo := range flagOne {
+				if got := strings.Join(ctrlConds(fo.Block()), " & "); got != want {
+					okCodec = false
+				}
+			}
+		}
+		r.Decide("path", "a message is flagged compressed only after passing the codec switch", okCodec, "every path to the flag value 1 passes the switch over adapter.encoding", "some messages (e.g. empty ones) skip the compressor but are still flagged compressed: the peer cannot decode them", em.Pos())
 		r.Decide("path", "the compressed flag written is the flag read", okFlag, "WriteByte(1) on the adapter.compressed edge, WriteByte(0) otherwise", "the compressed flag of a re-emitted message does not follow the flag that was read", em.Pos())
 		// the flag read: compressed = byte > 0, stored before the length is read
 		okRead := false
@@ -430,6 +465,40 @@ func c11(r *Report) {
 		}
 		r.Decide("path", "(*M/h2/grpc.adapter).Data: a zero-length message is delivered without waiting for more bytes", ok, "the empty-buffer return is bypassed when the pending message has length 0", "after reading the prefix of a zero-length message the adapter waits for more data: the message (and an END_STREAM on that frame) is never delivered", ad.Pos())
 	})
+}
+
+// ctrlConds describes the branch edges that dominate block b: one entry per
+// If whose taken edge every path to b must use. A condition that is a load of
+// a struct field is named after the field, so that repeated tests of one
+// field compare equal.
+func ctrlConds(b *ssa.BasicBlock) []string {
+	var out []string
+	f := b.Parent()
+	for _, blk := range f.Blocks {
+		if len(blk.Instrs) == 0 {
+			continue
+		}
+		iff, ok := blk.Instrs[len(blk.Instrs)-1].(*ssa.If)
+		if !ok {
+			continue
+		}
+		for k := range blk.Succs {
+			if blk.Succs[0] == blk.Succs[1] {
+				continue
+			}
+			if edgeDominates(blk, k, b) {
+				desc := iff.Cond.String()
+				if ld, isLd := iff.Cond.(*ssa.UnOp); isLd && ld.Op == token.MUL {
+					if fa, isFa := ld.X.(*ssa.FieldAddr); isFa {
+						desc = "field " + fieldObj(fa).Name()
+					}
+				}
+				out = append(out, fmt.Sprintf("%s=%v", desc, k == 0))
+			}
+		}
+	}
+	sort.Strings(out)
+	return out
 }
 
 func isExtractOfCall(v ssa.Value, name string) bool {
